@@ -65,7 +65,27 @@ def c06(chk, thorough):
     chk.floor('W1.rng-state-owner', 1)
 
 
+def c18(chk, thorough):
+    from . import loopterm
+    chk.explanation = (
+        'Decides the termination clause of C18: every loop in every function reachable (direct calls and address-taken '
+        'thread entries) from PCA, PLS, CPCA, KMeans, NelderMeadSimplex, the three cross-validation drivers and the MLR '
+        'workers has a counter/cap/consuming certificate; self-recursion has a decreasing measure. Loops whose only exits '
+        'are floating-point comparisons are violations. NOT decided: finiteness of the leading components, zero (not NaN) '
+        'variance beyond the rank, the identities on the defined components.')
+    chk.assumptions = ['thread counts are >= 1 (stated precondition "thread counts 1..8"): loops stepping by nthreads advance',
+                       'containers are not aliased under two different variable names inside one loop',
+                       'unsigned wrap-around of a counter is not a termination argument and is not modelled']
+    prog = load_program(chk)
+    n = loopterm.run(chk, prog)
+    if n < 400:
+        chk.broke('only %d loops reachable from the C18 roots, floor 400' % n)
+    if chk.extra.get('reachable_functions', 0) < 120:
+        chk.broke('only %d functions reachable from the C18 roots, floor 120' % chk.extra.get('reachable_functions', 0))
+
+
 CHECKS = {
+    'C18': c18,
     'C06': c06,
     'C20': c20,
 }
